@@ -27,3 +27,19 @@ Theorem C04_stored_original : forall k ops l, k = KAlpha -> history_ok k ops = t
   In l (cs_of k ops) -> exists x v, In (Insert (AB x) v) ops /\ key_of KAlpha l = AB x.
 Proof. exact stored_original. Qed.
 Print Assumptions C04_stored_original.
+
+(* the regenerated tie: lowestCommonParent() and filter() of tree.go, translated from the Go AST on every run
+   (Gen/IterGen.v). lowestCommonParent stops at the node Model.Iter.lcparent stops at (no panic; the budget is enough
+   as soon as it exceeds the height, because minimum() inside prefixMismatch gets the same budget); the closure of
+   filter is Model.Iter.walk with the predicate deciding Deliver / Skip, for every budget *)
+From GoArt Require Import Spec.TreeSpec Model.Iter Model.PoolTree Proofs.PoolTreeFacts Model.GoTree Gen.IterGen Proofs.TranslateIterFacts.
+Theorem C04_regenerated_lowestCommonParent : forall fuel t p dd, xtwf t -> WF dd (tabs t) -> isbytes p = true ->
+  (theight (tabs t) < fuel)%nat ->
+  exists r, g_lowestCommonParent fuel (Some t) p = GRet (Some r) /\ lcparent fuel (tabs t) p 0 = Some (tabs r).
+Proof. exact gen_lowestCommonParent_eq. Qed.
+Print Assumptions C04_regenerated_lowestCommonParent.
+Theorem C04_regenerated_filter : forall fuel t pr pred ans, (forall l, pr l = pred (tabs l)) -> xtwf t ->
+  ires_abs (g_filter fuel (Some t) pr ans) =
+  Some (walk (fun l => if pred l then Deliver else Skip) expand_fwd fuel [(tabs t, 0%nat)] ans 0 []).
+Proof. exact gen_filter_eq. Qed.
+Print Assumptions C04_regenerated_filter.
